@@ -1,10 +1,13 @@
 (* M7 - the remote server's accept loop (RemoteServer.run as of the per-client guard), its
    context table, and the client-side handshake of RemoteWorker._start/_run_frontend.
-   Hand-written (pinned by tools/pin.py); compared with a real server process driven by
+   Hand-written (pinned by tools/pin.py) and parameterised by the decisions of RemoteServer.run which are read off the
+   source on every run (Server/LoopFlags.v, Gen/ServerLoop.v); compared with a real server process driven by
    scripted TCP clients, and with the real constructor against a scripted server
    (harness/props/c11.py, c18.py, c20.py). *)
 From Coq Require Export ZArith List Bool Lia.
 Export ListNotations.
+From PW Require Export Server.LoopFlags.
+From PW Require Import Gen.ServerLoop.
 Open Scope Z_scope.
 
 Inductive reqkind :=
@@ -41,43 +44,64 @@ Fixpoint ctx_get (l : list (Z * nat)) (i : Z) : option nat :=
 Fixpoint ctx_del (l : list (Z * nat)) (i : Z) : list (Z * nat) :=
   match l with [] => [] | (k, v) :: r => if k =? i then ctx_del r i else (k, v) :: ctx_del r i end.
 
-Definition serve (s : srv) (x : session) : srv * reply :=
+(* what happens to a client whose request fails on the server (connection lost, garbage, spawning failed): with the
+   per-client guard the client is dropped and the loop carries on; without it the exception ends the accept loop *)
+Definition dropped (f : sflags) (s : srv) : srv * reply :=
+  if guard_per_client f && only_termination_escapes f
+  then (s, if guard_closes_client f then Closed else NoReply)
+  else (mkSrv false (children s) (contexts s) (next s) (killed s), NoReply).
+
+Definition serve_f (f : sflags) (s : srv) (x : session) : srv * reply :=
   if negb (up s) then (s, NoReply) else
   match how x with
-  | PNothing | PHeaderCut | PGarbage => (s, Closed)          (* ConnectionClosedError / bad request: the per-client guard drops the client *)
+  | PNothing | PHeaderCut | PGarbage => dropped f s
   | _ =>
     match req x with
     | RNone => (s, Closed)
     | RWorker =>
         match how x with
         | PComplete => (mkSrv true (children s ++ [next s]) (contexts s) (S (next s)) (killed s), Handshake)
-        | _ => (s, Closed)      (* payload cut, or accept on the control socket timed out: nothing was spawned *)
+        | _ => dropped f s      (* payload cut, or accept on the control socket timed out: nothing was spawned *)
         end
     | RWorkerCtx i =>
         match ctx_get (contexts s) i with
-        | None => (s, Closed)   (* unknown context: the client is told by closing *)
-        | Some _ => (s, match how x with PComplete => Handshake | _ => Closed end)   (* the helper deals with it; the table is untouched *)
+        | None => (s, if unknown_ctx_closes f then Closed else NoReply)   (* unknown context: the client is told by closing *)
+        | Some _ => match how x with PComplete => (s, Handshake) | _ => dropped f s end   (* the helper deals with it; the table is untouched *)
         end
     | RCtxCreate i =>
         match how x with
         | PComplete =>
             match ctx_get (contexts s) i with
-            | Some _ => (mkSrv true (children s) (contexts s) (S (next s)) (killed s ++ [next s]), RBool false)
+            | Some _ =>
+                if dup_ctx_refused f
+                then (mkSrv true (children s) (contexts s) (S (next s)) (if dup_ctx_helper_ended f then killed s ++ [next s] else killed s), RBool false)
+                else (mkSrv true (children s) (ctx_del (contexts s) i ++ [(i, next s)]) (S (next s)) (killed s), RBool true)
             | None => (mkSrv true (children s) (contexts s ++ [(i, next s)]) (S (next s)) (killed s), RBool true)
             end
-        | _ => (s, Closed)
+        | _ => dropped f s
         end
     | RCtxDelete i =>
         match how x with
         | PComplete =>
             match ctx_get (contexts s) i with
-            | Some h => (mkSrv true (children s) (ctx_del (contexts s) i) (next s) (killed s ++ [h]), RBool true)
+            | Some h => (mkSrv true (children s) (if delete_pops f then ctx_del (contexts s) i else contexts s) (next s) (killed s ++ [h]), RBool true)
             | None => (s, RBool true)
             end
-        | _ => (s, Closed)
+        | _ => dropped f s
         end
     end
   end.
+
+(* the server as the source has it today *)
+Definition serve (s : srv) (x : session) : srv * reply := serve_f gen_sflags s x.
+
+Lemma gen_sflags_good : good_sflags gen_sflags.
+Proof. repeat split; reflexivity. Qed.
+
+Lemma serve_good (f : sflags) : good_sflags f -> forall s x, serve_f f s x = serve_f (mkSF true true true true true true true) s x.
+Proof.
+  intros [A [B [C [D [E [F G]]]]]] s x. destruct f as [a b c d e f' g]. cbn in *. subst. reflexivity.
+Qed.
 
 Fixpoint serve_all (s : srv) (l : list session) : srv * list reply :=
   match l with
@@ -90,7 +114,7 @@ Definition srv0 : srv := mkSrv true [] [] 0 [].
 (* ---------- C11 ---------- *)
 Lemma serve_up s x : up s = true -> up (fst (serve s x)) = true.
 Proof.
-  intros H. unfold serve. rewrite H. simpl.
+  intros H. unfold serve. rewrite (serve_good _ gen_sflags_good). unfold serve_f, dropped. rewrite H. simpl.
   destruct (how x), (req x); simpl; auto; try (destruct (ctx_get (contexts s) _); simpl; auto).
 Qed.
 
@@ -105,7 +129,7 @@ Qed.
 Theorem faulty_client_changes_nothing s x :
   how x <> PComplete -> fst (serve s x) = s.
 Proof.
-  intros H. unfold serve. destruct (up s); simpl; [|reflexivity].
+  intros H. unfold serve. rewrite (serve_good _ gen_sflags_good). unfold serve_f, dropped. destruct (up s); simpl; [|reflexivity].
   destruct (how x) eqn:E; try reflexivity; try congruence;
     destruct (req x); try reflexivity; destruct (ctx_get (contexts s) _); reflexivity.
 Qed.
@@ -115,7 +139,7 @@ Theorem healthy_client_served sessions s :
   up s = true -> snd (serve (fst (serve_all s sessions)) (mkSession RWorker PComplete)) = Handshake.
 Proof.
   intros H. pose proof (server_survives sessions s H) as U.
-  unfold serve. rewrite U. reflexivity.
+  unfold serve. rewrite (serve_good _ gen_sflags_good). unfold serve_f. rewrite U. reflexivity.
 Qed.
 
 (* ---------- C18: the context table against its dictionary specification ---------- *)
@@ -144,7 +168,7 @@ Theorem ctx_create_spec s i :
             /\ forall j, j <> i -> ctx_get (contexts s') j = ctx_get (contexts s) j
   end.
 Proof.
-  intros H. unfold serve. rewrite H. simpl. destruct (ctx_get (contexts s) i) eqn:E; simpl.
+  intros H. unfold serve. rewrite (serve_good _ gen_sflags_good). unfold serve_f. rewrite H. simpl. destruct (ctx_get (contexts s) i) eqn:E; simpl.
   - auto.
   - repeat split.
     + rewrite ctx_get_app, E, Z.eqb_refl. reflexivity.
@@ -161,7 +185,7 @@ Theorem ctx_delete_spec s i :
   /\ (forall h, ctx_get (contexts s) i = Some h -> In h (killed s'))
   /\ (ctx_get (contexts s) i = None -> s' = s).
 Proof.
-  intros H. unfold serve. rewrite H. simpl. destruct (ctx_get (contexts s) i) eqn:E; simpl.
+  intros H. unfold serve. rewrite (serve_good _ gen_sflags_good). unfold serve_f. rewrite H. simpl. destruct (ctx_get (contexts s) i) eqn:E; simpl.
   - repeat split.
     + rewrite ctx_get_del, Z.eqb_refl. reflexivity.
     + intros j Hj. rewrite ctx_get_del. destruct (Z.eqb_spec i j); [congruence|reflexivity].
@@ -173,7 +197,7 @@ Qed.
 (* a worker request naming an unknown context never changes the server *)
 Theorem unknown_context_harmless s i p :
   ctx_get (contexts s) i = None -> serve s (mkSession (RWorkerCtx i) p) = (s, if up s then Closed else NoReply).
-Proof. intros H. unfold serve. destruct (up s); simpl; [|reflexivity]. rewrite H. destruct p; reflexivity. Qed.
+Proof. intros H. unfold serve. rewrite (serve_good _ gen_sflags_good). unfold serve_f, dropped. destruct (up s); simpl; [|reflexivity]. rewrite H. destruct p; reflexivity. Qed.
 
 (* ---------- C20: the client side of the handshake ---------- *)
 (* what each step of RemoteWorker._start / _run_frontend meets *)
